@@ -314,7 +314,7 @@ fn shapes(seg: usize, rng: &mut Rng, thorough: bool) -> Vec<Vec<(char, usize)>> 
         // incompressible and as large as fits
         vec![('r', seg / 2)], vec![('r', seg / 3), ('r', seg / 3)],
     ];
-    let extra = if thorough { 12 } else { 3 };
+    let extra = if thorough { 40 } else { 3 };
     for _ in 0..extra {
         let n = *rng.pick(&[1usize, 1, 2, 3, 4]);
         v.push((0..n).map(|_| (if rng.chance(2, 3) { 'r' } else { 'c' }, match rng.below(4) { 0 => rng.range(0, 140), 1 => rng.range(100, 3000), 2 => rng.range(3000, 30000), _ => rng.range(0, 60000) } as usize)).collect());
@@ -362,7 +362,7 @@ fn main() {
     }
     let thorough = a.tier == "thorough";
     let mut rng = Rng::new(a.seed ^ 0xC19);
-    let budget: usize = std::env::var("SV_CASES").ok().and_then(|x| x.parse().ok()).unwrap_or(if thorough { 9000 } else { 900 });
+    let budget: usize = std::env::var("SV_CASES").ok().and_then(|x| x.parse().ok()).unwrap_or(if thorough { 40000 } else { 900 });
     // all candidate (shape, seg, comp, k)
     let mut cands: Vec<Case> = Vec::new();
     for &seg in &[131072usize, 262144] {
